@@ -35,3 +35,18 @@ Theorem C10_unknown_symbols_are_filtered_symbols : forall T e u,
   unknown_license_symbols T e u = filter (is_unknown T) (license_symbols e u true).
 Proof. exact unknown_symbols_are_filtered. Qed.
 Print Assumptions C10_unknown_symbols_are_filtered_symbols.
+
+(* in text order: the listings of what parse returns are the license tokens recognised in the text, left to right with
+   repetitions - and these tokens account for the words of the text in order (C01), with either tokenizer *)
+Require Import Model.Split Model.LicTok Model.BoolParse Proofs.ParseLits Proofs.Account Proofs.ListingOrder.
+Theorem C10_listings_follow_text_order : forall O, is_space O 32%N = true -> forall T text strict simple e,
+  Licensing.parse_tokens O T strict simple text = Ok e ->
+  exists ptoks, lic_tokenize O T strict simple text = Ok ptoks /\
+    license_symbols e false false = tok_atoms ptoks /\
+    license_symbols e false true = map Plain (flat_map decompose (tok_atoms ptoks)) /\
+    license_keys e false = map atom_str (map Plain (flat_map decompose (tok_atoms ptoks))) /\
+    exists gs, concat gs = filter (is_word_piece O) (pieces O text) /\
+      (if simple then Forall2 (ptok_acc O text (kw_acc_s O) (sym_acc_s O T)) ptoks gs
+       else Forall2 (ptok_acc O text (kw_acc O) (sym_acc O T text)) ptoks gs).
+Proof. exact listings_follow_text_order. Qed.
+Print Assumptions C10_listings_follow_text_order.
